@@ -11,6 +11,7 @@
    2516-2564, _coord2pos 4967-5051; iterators.py iterRangeShapeRef 224-256; rank.py append
    414-485. *)
 From Coq Require Import ZArith List Bool.
+From FT Require Import Model.Base.
 Import ListNotations.
 Open Scope Z_scope.
 
@@ -322,7 +323,11 @@ Inductive op :=
 | OGetPosRef (path : list Z) (c : Z) (sp : option nat)         (* fiber.getPositionRef(c, start_pos) *)
 | OGetSP (path : list Z) (c : Z) (sp : option nat)             (* fiber.getPayload(c, start_pos=sp) *)
 | OGetRefSP (path : list Z) (c : Z) (sp : option nat) (w : wr) (* fiber.getPayloadRef(c, start_pos=sp), then w *)
-| OGetD (pt : list Z) (dflt : Z)   (* tensor.getPayload( *pt, default=dflt, allocate=False ) *).
+| OGetD (pt : list Z) (dflt : Z)   (* tensor.getPayload( *pt, default=dflt, allocate=False ) *)
+| OAppendFib (path : list Z) (c : Z) (t : tree)      (* f.append(c, <fiber t>), f interior *)
+| OExtend (path : list Z) (t : tree)                 (* f.extend(<fiber t>), any rank *)
+| OSetItemFib (path : list Z) (pos : Z) (t : tree)   (* f[pos] = <fiber t>, f interior *)
+| OAssignFib (path : list Z) (t : tree)              (* f <<= <fiber t>, any rank *).
 
 Inductive res := RNone | RPay (t : itree) | RPos (p : option nat).
 
@@ -422,6 +427,99 @@ Fixpoint all_ids (t : itree) : list nat :=
   | INode id _ es => id :: flat_map (fun ct => all_ids (snd ct)) es
   end.
 Definition all_ids_fib (es : ifib) : list nat := flat_map (fun ct => all_ids (snd ct)) es.
+
+(* ---- building a state from a plain tree (Tensor.fromFiber: setRoot/_addFiber, DFS
+   pre-order registration), identities numbered in registration order *)
+Fixpoint load (lvl : nat) (t : tree) (nx : nat) (rk : list (list nat))
+  : itree * nat * list (list nat) :=
+  match t with
+  | Leaf v => (ILeaf v, nx, rk)
+  | Node es =>
+    let id := nx in
+    let rk0 := app_rank lvl id rk in
+    let '(es', nx', rk') :=
+      (fix go (l : fib) (nx : nat) (rk : list (list nat)) : ifib * nat * list (list nat) :=
+         match l with
+         | [] => ([], nx, rk)
+         | (c, t') :: l' =>
+           let '(t'', nx1, rk1) := load (S lvl) t' nx rk in
+           let '(l'', nx2, rk2) := go l' nx1 rk1 in
+           ((c, t'') :: l'', nx2, rk2)
+         end) es (S nx) rk0 in
+    (INode id (Some lvl) es', nx', rk')
+  end.
+
+
+(* the same for an element list (the payloads of a fiber of rank [lvl]) *)
+Definition load_es (lvl : nat) : fib -> nat -> list (list nat) -> ifib * nat * list (list nat) :=
+  fix go (l : fib) (nx : nat) (rk : list (list nat)) : ifib * nat * list (list nat) :=
+    match l with
+    | [] => ([], nx, rk)
+    | (c, t') :: l' =>
+      let '(t'', nx1, rk1) := load (S lvl) t' nx rk in
+      let '(l'', nx2, rk2) := go l' nx1 rk1 in
+      ((c, t'') :: l'', nx2, rk2)
+    end.
+
+(* ---- fiber-valued mutators (fiber.py append 2389-2423, extend 2426-2468, __setitem__
+   2048-2128, __ilshift__ 3053-3099, _registerPayload 2357-2378, _disownPayload 2341-2354).
+   The argument fiber is given as a plain tree; the model builds its fibers with fresh
+   identities (in Python the payload objects of append/extend/__setitem__ are the caller's
+   objects, shared with the argument; <<= copies).  _registerPayload visits the fiber itself
+   first, then its payloads depth-first: the registration order of [load]. *)
+
+(* a usable argument: uniform depth k, strictly increasing coordinates *)
+Fixpoint plain_wf (k : nat) (t : tree) {struct t} : bool :=
+  match t with
+  | Leaf _ => Nat.eqb k O
+  | Node es => match k with
+               | O => false
+               | S k' => ssorted (map fst es) && forallb (fun ct => plain_wf k' (snd ct)) es
+               end
+  end.
+
+(* what iterating a fiber offers, recursively: `for c, p in other` skips empty payloads *)
+Fixpoint prune (d : Z) (t : tree) : tree :=
+  match t with
+  | Leaf v => Leaf v
+  | Node es =>
+    Node ((fix go (l : fib) : fib :=
+             match l with
+             | [] => []
+             | (c, t') :: l' => if is_empty d t' then go l' else (c, prune d t') :: go l'
+             end) es)
+  end.
+
+(* _disownPayload: the fibers with these identities leave their ranks' lists *)
+Definition drop_dead (dead : list nat) (rk : list (list nat)) : list (list nat) :=
+  map (filter (fun id => negb (existsb (Nat.eqb id) dead))) rk.
+
+(* f.append(c, fiber) at a fiber of rank lvl *)
+Definition append_fib (c : Z) (t : tree) (lvl : nat) (es : ifib) (nx : nat) (rk : list (list nat))
+  : ifib * nat * list (list nat) :=
+  let '(t', nx', rk') := load (S lvl) t nx rk in (es ++ [(c, t')], nx', rk').
+
+(* f.extend(other): the elements of other appended, their fibers registered *)
+Definition extend_fib (l : fib) (lvl : nat) (es : ifib) (nx : nat) (rk : list (list nat))
+  : ifib * nat * list (list nat) :=
+  let '(l', nx', rk') := load_es lvl l nx rk in (es ++ l', nx', rk').
+
+(* f[i] = fiber: the replaced sub-fiber and everything below it is disowned, the new one
+   registered; the coordinate stays *)
+Definition setitem_fib (i : nat) (t : tree) (lvl : nat) (es : ifib) (nx : nat) (rk : list (list nat))
+  : ifib * nat * list (list nat) :=
+  match nth_error es i with
+  | Some (c0, old) =>
+    let '(t', nx', rk') := load (S lvl) t nx (drop_dead (all_ids old) rk) in
+    (set_nth i (c0, t') es, nx', rk')
+  | None => (es, nx, rk)
+  end.
+
+(* g <<= other: everything below g is disowned and dropped, then each offered element is
+   re-created through getPayloadRef (fresh fibers, registered as they are created) *)
+Definition assign_fib (l : fib) (lvl : nat) (es : ifib) (nx : nat) (rk : list (list nat))
+  : ifib * nat * list (list nat) :=
+  load_es lvl l nx (drop_dead (all_ids_fib es) rk).
 
 Definition step (s : st) (o : op) : st * outcome :=
   let n := nranks s in
@@ -564,32 +662,71 @@ Definition step (s : st) (o : op) : st * outcome :=
     if (Nat.leb (length pt) n) && negb (Nat.eqb (length pt) O)
     then (s, Done (res_of (get_pay_d dflt pt (root_es s))))
     else (s, BadAddress)
+  | OAppendFib path c t =>
+    (* the new sub-fiber has rank S (length path) and n - S (length path) ranks below it *)
+    if Nat.ltb (S (length path)) n && plain_wf (n - S (length path)) t then
+      match fiber_at path (root_es s) with
+      | Some es =>
+        (* assert maxCoord() is None or maxCoord() < coord *)
+        if match last_coord es with Some m => m <? c | None => true end then
+          match at_path_st path (append_fib c t) O (root_es s) (s_next s) (s_ranks s) with
+          | Some (es', nx, rk) => (with_root s es' nx rk, Done RNone)
+          | None => (s, BadAddress)
+          end
+        else (s, Rejected)
+      | None => (s, BadAddress)
+      end
+    else (s, BadAddress)
+  | OExtend path t =>
+    match t with
+    | Node l =>
+      if Nat.ltb (length path) n && plain_wf (n - length path) t then
+        match fiber_at path (root_es s) with
+        | Some es =>
+          if is_empty (s_d s) t then (s, Done RNone)       (* extending with an empty fiber is a nop *)
+          else if match last_coord es, l with
+                  | Some m, (c0, _) :: _ => m <? c0          (* maxCoord() < other.coords[0] *)
+                  | _, _ => true
+                  end then
+            match at_path_st path (extend_fib l) O (root_es s) (s_next s) (s_ranks s) with
+            | Some (es', nx, rk) => (with_root s es' nx rk, Done RNone)
+            | None => (s, BadAddress)
+            end
+          else (s, Rejected)
+        | None => (s, BadAddress)
+        end
+      else (s, BadAddress)
+    | Leaf _ => (s, BadAddress)
+    end
+  | OSetItemFib path pos t =>
+    if Nat.ltb (S (length path)) n && plain_wf (n - S (length path)) t then
+      match fiber_at path (root_es s) with
+      | Some es =>
+        let len := Z.of_nat (length es) in
+        let p := if pos <? 0 then pos + len else pos in
+        if (p <? 0) || (len <=? p) then (s, Rejected)        (* IndexError, before any change *)
+        else
+          match at_path_st path (setitem_fib (Z.to_nat p) t) O (root_es s) (s_next s) (s_ranks s) with
+          | Some (es', nx, rk) => (with_root s es' nx rk, Done RNone)
+          | None => (s, BadAddress)
+          end
+      | None => (s, BadAddress)
+      end
+    else (s, BadAddress)
+  | OAssignFib path t =>
+    match prune (s_d s) t with
+    | Node l =>
+      if Nat.ltb (length path) n && plain_wf (n - length path) t then
+        match at_path_st path (assign_fib l) O (root_es s) (s_next s) (s_ranks s) with
+        | Some (es', nx, rk) => (with_root s es' nx rk, Done RNone)
+        | None => (s, BadAddress)
+        end
+      else (s, BadAddress)
+    | Leaf _ => (s, BadAddress)
+    end
   end.
 
 Definition run (s : st) (ops : list op) : st := fold_left (fun s o => fst (step s o)) ops s.
-
-(* ---- building a state from a plain tree (Tensor.fromFiber: setRoot/_addFiber, DFS
-   pre-order registration), identities numbered in registration order *)
-From FT Require Import Model.Base.
-
-Fixpoint load (lvl : nat) (t : tree) (nx : nat) (rk : list (list nat))
-  : itree * nat * list (list nat) :=
-  match t with
-  | Leaf v => (ILeaf v, nx, rk)
-  | Node es =>
-    let id := nx in
-    let rk0 := app_rank lvl id rk in
-    let '(es', nx', rk') :=
-      (fix go (l : fib) (nx : nat) (rk : list (list nat)) : ifib * nat * list (list nat) :=
-         match l with
-         | [] => ([], nx, rk)
-         | (c, t') :: l' =>
-           let '(t'', nx1, rk1) := load (S lvl) t' nx rk in
-           let '(l'', nx2, rk2) := go l' nx1 rk1 in
-           ((c, t'') :: l'', nx2, rk2)
-         end) es (S nx) rk0 in
-    (INode id (Some lvl) es', nx', rk')
-  end.
 
 Definition init (n : nat) (d : Z) (t : tree) : st :=
   let '(r, nx, rk) := load O t O (repeat [] n) in
